@@ -54,6 +54,20 @@ func c02(r *Report) {
 	s2s := p.Func(iam, "Wrapper", "handleS2SAccessTokenRequest")
 	issue := CallEffect(create)
 	r.Gate(Gate{ID: "C02.s2s.envelope", Fn: s2s, Effect: issue, Check: ErrCheck(Fn("vcr/pe", "", "ParseEnvelope"))})
+	// an assertion without presentations proves nothing (every later check is a loop over the presentations)
+	r.Gate(Gate{ID: "C02.s2s.at-least-one-presentation", Fn: s2s, Effect: issue, Check: CmpCheck("len(pexEnvelope.Presentations) == 0 is false", token.EQL, LenV(FieldV("Envelope", "Presentations")), IntV(0), false)})
+	// every presentation definition the scope requires is fulfilled (not just the one the client's submission names)
+	r.Gate(Gate{ID: "C02.s2s.every-required-definition-fulfilled", Fn: s2s, Effect: issue, ForEach: true, Check: CallCheck(Fn(iam, "PEXConsumer", "isFulfilled"), -1, IsTrue)})
+	c02NonceRetention(r)
+	// v1 (RFC003) JWT bearer grant: the key that signed the grant (kid) is a key of the issuer (iss)
+	vi := p.Func("auth/services/oauth", "authzServer", "validateIssuer")
+	kidIsIss := CallCheck(Fn("github.com/nuts-foundation/go-did/did", "DID", "Equals"), -1, IsTrue)
+	kidIsIss.Desc = "GetDIDFromURL(kid).Equals(requester)"
+	kidIsIss.Filter = func(ci ssa.CallInstruction) bool {
+		return OriginV(CallV(Fn("vdr/resolver", "", "GetDIDFromURL"), 0)).M(CallArg(ci.Common(), -1)) || CallV(Fn("vdr/resolver", "", "GetDIDFromURL"), 0).M(CallArg(ci.Common(), -1))
+	}
+	r.Gate(Gate{ID: "C02.v1.signing-key-is-the-issuers", Fn: vi, Effect: SuccessReturn(), Check: kidIsIss})
+	r.ArgIs("C02.v1.signing-key-is-the-issuers.kid-of-the-token", vi, Fn("vdr/resolver", "", "GetDIDFromURL"), 0, FieldV("validationContext", "kid"), 1)
 	r.Gate(Gate{ID: "C02.s2s.submission", Fn: s2s, Effect: issue, Check: ErrCheck(Fn("vcr/pe", "", "ParsePresentationSubmission"))})
 	r.Gate(Gate{ID: "C02.s2s.max-validity", Fn: s2s, Effect: issue, ForEach: true, Check: ErrCheck(Fn(iam, "", "validateS2SPresentationMaxValidity"))})
 	r.Gate(Gate{ID: "C02.s2s.signer-is-subject", Fn: s2s, Effect: issue, ForEach: true, Check: ErrCheck(Fn(iam, "", "validatePresentationSigner"))})
@@ -97,7 +111,7 @@ func c02(r *Report) {
 	mv := p.Func(iam, "", "validateS2SPresentationMaxValidity")
 	r.Gate(Gate{ID: "C02.inner.validity.created-present", Fn: mv, Effect: SuccessReturn(), Check: CmpCheck("created == nil is false", token.EQL, CallV(Fn("vcr/credential", "", "PresentationIssuanceDate"), -1), NilV(), false)})
 	r.Gate(Gate{ID: "C02.inner.validity.expires-present", Fn: mv, Effect: SuccessReturn(), Check: CmpCheck("expires == nil is false", token.EQL, CallV(Fn("vcr/credential", "", "PresentationExpirationDate"), -1), NilV(), false)})
-	r.Gate(Gate{ID: "C02.inner.validity.window", Fn: mv, Effect: SuccessReturn(), Check: CmpCheck("expires.Sub(created) <= s2sMaxPresentationValidity", token.LEQ, CallV(Fn("std:time", "Time", "Sub"), -1), AnyV(), true)})
+	r.Gate(Gate{ID: "C02.inner.validity.window", Fn: mv, Effect: SuccessReturn(), Check: CmpCheck("expires.Sub(created) <= s2sMaxPresentationValidity", token.LEQ, CallV(Fn("std:time", "Time", "Sub"), -1), p.ConstV(iam, "s2sMaxPresentationValidity"), true)})
 	c02MaxValidityConst(r)
 	au := p.Func(iam, "Wrapper", "validatePresentationAudience")
 	r.Gate(Gate{ID: "C02.inner.audience.equals-own-url", Fn: au, Effect: SuccessReturn(), Check: CmpCheck("aud == expected.String()", token.EQL, AnyV(), CallV(Fn("std:net/url", "URL", "String"), -1), true)})
@@ -618,4 +632,41 @@ func c02SessionReadOnly(r *Report, fn *ssa.Function) {
 	}
 	r.Sites += n
 	r.OK(key, rule, r.P.Pos(fn.Pos()), fmt.Sprintf("%d field stores examined, none into the session", n), true)
+}
+
+// c02NonceRetention: a used s2s nonce is remembered at least as long as the presentation that carried it is accepted: from
+// creation - skew to expiry + skew, i.e. validity + 2 x skew (fix: it was validity + skew, so a JSON-LD presentation of a
+// client whose clock runs ahead could be replayed after its nonce record expired).
+func c02NonceRetention(r *Report) {
+	p := r.P
+	const iam = "auth/api/iam"
+	rule := "TABLE: the TTL of the s2s nonce store is a constant >= s2sMaxPresentationValidity + 2*s2sMaxClockSkew"
+	key := "C02.s2s.nonce-retention"
+	num := func(name string) (int64, bool) {
+		v, ok := p.ConstValue(iam, name)
+		var n int64
+		if ok {
+			fmt.Sscan(v, &n)
+		}
+		return n, ok
+	}
+	val, ok1 := num("s2sMaxPresentationValidity")
+	skew, ok2 := num("s2sMaxClockSkew")
+	fn := p.Func(iam, "Wrapper", "s2sNonceStore")
+	if !ok1 || !ok2 || fn == nil {
+		r.Lost(key, rule, "constants or s2sNonceStore not found")
+		return
+	}
+	calls := Calls(fn, p.FnOrImpl("storage", "SessionDatabase", "GetStore"))
+	r.Sites += len(calls)
+	if len(calls) != 1 {
+		r.Lost(key, rule, fmt.Sprintf("%d GetStore calls in s2sNonceStore", len(calls)))
+		return
+	}
+	ttl, isC := ConstInt(StripConv(CallArg(calls[0].Common(), 0)))
+	if !isC || ttl < val+2*skew {
+		r.Bad(key, rule, p.Pos(calls[0].Pos()), fmt.Sprintf("TTL is %s (%dns); needed >= %dns", AccessPath(CallArg(calls[0].Common(), 0), 0), ttl, val+2*skew))
+		return
+	}
+	r.OK(key, rule, p.Pos(calls[0].Pos()), fmt.Sprintf("%dns >= %dns", ttl, val+2*skew), true)
 }
